@@ -85,6 +85,14 @@ func (c08) Gen(seed uint64, run int, tier string) *Plan {
 			p.Actions = append(p.Actions, Action{Kind: "relink", B: node, C: r.Intn(n), D: r.Intn(1 << 20)})
 		}
 	}
+	if r.Intn(4) == 0 && len(p.Actions) > n {
+		// a pivot agent changes its key pair (its answer to a check-in task names the new one), later
+		// the teamserver is restarted: the restored session must wrap and decode under the pair
+		// the agent holds now
+		at := n - 1 + r.Intn(len(p.Actions)-n+2)
+		act := Action{Kind: "rekey-restart", B: 1 + r.Intn(n-1), D: r.Intn(1 << 30), C: r.Intn(2)}
+		p.Actions = append(p.Actions[:at], append([]Action{act}, p.Actions[at:]...)...)
+	}
 	return p
 }
 
@@ -178,6 +186,20 @@ func (c08) Exec(p *Plan, dir string) *Result {
 							return
 						}
 					}
+				}
+			}
+		}
+	}
+
+	undelivered := func() {
+		for _, n := range nodes {
+			for _, pt := range n.pending {
+				if !pt.seen && len(res.Violations) == 0 {
+					kind := "id-below-2^31"
+					if n.d.ID >= 0x80000000 {
+						kind = "id-at-or-above-2^31"
+					}
+					res.Violate("C08", "task-not-delivered", kind, fmt.Sprintf("task rid=%x for agent %s (depth %d) never reached it through its parents", pt.rid, n.d.NameID(), n.d.Depth()), w.Sim)
 				}
 			}
 		}
@@ -397,6 +419,97 @@ func (c08) Exec(p *Plan, dir string) *Result {
 			}
 			n.open = n.open[1:]
 			n.done = append(n.done, rid)
+		case "rekey-restart":
+			n := nodes[a.B%len(nodes)]
+			if n.d.Parent == nil {
+				continue
+			}
+			taskN++
+			rid := uint32(0x08000000 + taskN)
+			wit.Task(n.d.NameID(), fmt.Sprintf("%08x", rid), world.CmdCheckin, "checkin", nil)
+			w.Sim.Settle()
+			n.pending = append(n.pending, &c08Task{rid: rid, cmd: world.CmdCheckin})
+			fetchAll()
+			if len(res.Violations) > 0 {
+				break
+			}
+			got := false
+			for k, o := range n.open {
+				if o == rid {
+					n.open = append(n.open[:k], n.open[k+1:]...)
+					got = true
+					break
+				}
+			}
+			if !got {
+				break
+			}
+			cr := simrt.NewRand(uint64(a.D) + 11)
+			nd := *n.d
+			nd.Key, nd.IV = randBytes(cr, 32), randBytes(cr, 16)
+			// the answer travels under the old pair; the block inside names the new one
+			w.SendUp(n.d, []world.Pkg{{Cmd: world.CmdCheckin, RID: rid, Body: nd.CheckinMetaBody()}})
+			n.d.Key, n.d.IV = nd.Key, nd.IV
+			n.done = append(n.done, rid)
+			if ag := w.TS.AgentInstance(int(n.d.ID)); ag == nil || !bytes.Equal(ag.Encryption.AESKey, nd.Key) || !bytes.Equal(ag.Encryption.AESIv, nd.IV) {
+				res.Violate("C08", "relayed-callback", "checkin-key-not-taken-over", fmt.Sprintf("agent %s (depth %d) answered a check-in task through its parents with a new key pair; its session does not hold that pair", n.d.NameID(), n.d.Depth()), w.Sim)
+				break
+			}
+			res.Probe("relayed-rekey")
+			if a.C == 1 {
+				// it is tasked under the new pair before the restart as well
+				taskN++
+				r2 := uint32(0x08000000 + taskN)
+				wit.Task(n.d.NameID(), fmt.Sprintf("%08x", r2), world.CmdSleep, "sleep", map[string]any{"Arguments": "5;5"})
+				w.Sim.Settle()
+				n.pending = append(n.pending, &c08Task{rid: r2, cmd: world.CmdSleep, args: []any{uint32(5), uint32(5)}})
+			}
+			// (queues are not persisted: everything waiting is fetched first)
+			fetchAll()
+			if len(res.Violations) > 0 {
+				break
+			}
+			undelivered()
+			ProblemsToViolations(res, "C08", w.Sim.Problems, nil)
+			if len(res.Violations) > 0 {
+				break
+			}
+			for _, x := range nodes {
+				x.pending = nil
+			}
+			w.Crash()
+			if err := w.Boot(); err != nil {
+				res.HarnessError = "restart: " + err.Error()
+				res.finish(w)
+				return res
+			}
+			wit = w.NewOperator(p.Cfg.Operators[0].Name, p.Cfg.Operators[0].Password)
+			if !wit.Login() {
+				res.HarnessError = "restart: operator could not log in"
+				res.finish(w)
+				return res
+			}
+			w.Sim.SetPolicy(p.Policy)
+			// which tasks are outstanding does not outlive the process
+			for _, x := range nodes {
+				x.done = append(x.done, x.open...)
+				x.open = nil
+			}
+			res.Probe("restarts")
+			res.FP("rekey-restart", n.d.Depth(), a.C)
+			// every agent of the tree is tasked once: each layer is wrapped under a restored pair
+			for _, x := range nodes {
+				if w.TS.AgentInstance(int(x.d.ID)) == nil {
+					continue // (C10 judges what is restored)
+				}
+				taskN++
+				r3 := uint32(0x08000000 + taskN)
+				wit.Task(x.d.NameID(), fmt.Sprintf("%08x", r3), world.CmdSleep, "sleep", map[string]any{"Arguments": fmt.Sprintf("%d;7", a.D%1000)})
+				w.Sim.Settle()
+				x.pending = append(x.pending, &c08Task{rid: r3, cmd: world.CmdSleep, args: []any{uint32(a.D % 1000), uint32(7)}})
+			}
+			fetchAll()
+			res.Probe("tasks-after-restart")
 		case "callback", "dup-callback":
 			n := nodes[a.B%len(nodes)]
 			if n.d.Parent == nil {
@@ -535,17 +648,7 @@ func (c08) Exec(p *Plan, dir string) *Result {
 	if len(res.Violations) == 0 && !w.Sim.Exited {
 		w.Sim.SetAction(len(p.Actions))
 		fetchAll()
-		for _, n := range nodes {
-			for _, pt := range n.pending {
-				if !pt.seen && len(res.Violations) == 0 {
-					kind := "id-below-2^31"
-					if n.d.ID >= 0x80000000 {
-						kind = "id-at-or-above-2^31"
-					}
-					res.Violate("C08", "task-not-delivered", kind, fmt.Sprintf("task rid=%x for agent %s (depth %d) never reached it through its parents", pt.rid, n.d.NameID(), n.d.Depth()), w.Sim)
-				}
-			}
-		}
+		undelivered()
 	}
 	// finale (preemptive policies): an operator tasks a pivot agent at the moment its parent reports
 	// that the pipe to it is gone. Whichever wins, nothing may panic or hang; routing is not judged
